@@ -859,6 +859,24 @@ fn blame_hang(rep: &RunReport, live: Live, out: &mut Vec<Violation>, verdict: &m
                     props_found += 1;
                 }
             }
+            // ... and so must whoever waits for a future of the object, or releases its last owner, once the panic is over
+            let pp = ops.iter().filter(|x| x.obj == Some(o) && x.injects_panic && x.start.is_some()).map(|x| x.phase).min();
+            let in_fs = ops.iter().any(|x| x.obj == Some(o) && x.injects_panic && x.start.is_some() && x.kind == Kind::FutureSync);
+            if let (Some(after), false) = (pp.and_then(|pp| world.phase_started.get(pp + 1).copied()), in_fs) {
+                for (h, hr) in world.hrec.iter().enumerate() {
+                    let (Some(t), Some(opid)) = (hr.awaiting, hr.op) else { continue };
+                    if ops[opid as usize].obj == Some(o) && hr.await_started.map_or(false, |s| s > after) && hr.resolved_at.is_none() {
+                        v(out, "C15", "wait_on_panicked_object_blocked", &[opid], hr.await_started.unwrap_or(0), format!("task {} waits for handle {} of {} {} on panicked object {} and is neither refused nor cancelled: {}", t, h, ops[opid as usize].tag, opid, o, where_));
+                        props_found += 1;
+                    }
+                }
+                if let (Some(di), None) = (slot.drop_inv, slot.drop_ret) {
+                    if di > after {
+                        v(out, "C15", "drop_of_panicked_object_blocked", &[], di, format!("releasing the last owner of panicked object {} blocked: {}", o, where_));
+                        props_found += 1;
+                    }
+                }
+            }
             continue;
         }
         let describe = |r: &OpRec| format!("{} {} on object {} (queue state/len/waiters {:?}, pool threads/busy/scheduled/max {:?}): {}", r.tag, r.id, o, peek, facts.sched_peek, where_);
